@@ -22,7 +22,7 @@ DEFAULT_PROFILE = dict(
     types=[("bool", 14), ("int", 8), ("int8", 3), ("int16", 2), ("int32", 2), ("int64", 3), ("uint", 3), ("uint8", 3), ("uint16", 1),
            ("uint32", 1), ("uint64", 2), ("float32", 2), ("float64", 3), ("string", 14), ("duration", 3), ("custom", 3),
            ("ptr", 6), ("slice", 10), ("map", 6), ("func", 6)],
-    p_bad_default=0.05, p_plain_mapkey=0.7, p_dup=0.0, p_bad_tag=0.0, p_long_short=0.0, p_bool_default=0.0, p_bool_choice=0.03,
+    p_bad_default=0.05, p_plain_mapkey=0.7, p_envns=0.3, p_dup=0.0, p_bad_tag=0.0, p_long_short=0.0, p_bool_default=0.0, p_bool_choice=0.03,
 )
 
 
@@ -358,8 +358,8 @@ class Gen:
             if self.chance("p_namespace"):
                 n = r.choice([b"sub", b"db", b"x", b"a.b"])
                 kv.append((b"namespace", n)); gns = (n,)
-            if r.random() < 0.3:
-                n = r.choice([b"SUB", b"DB"])
+            if self.chance("p_envns"):
+                n = r.choice([b"SUB", b"DB", b"IN"])
                 kv.append((b"env-namespace", n)); gens = (n,)
             sub_hidden = r.random() < 0.1
             if sub_hidden: kv.append((b"hidden", b"yes"))
@@ -510,9 +510,10 @@ class Gen:
             ns = r.choice([b"", b"", b"grp"])
             gshort = r.choice([b"Extra", b"Added Group"])
             ghid = r.random() < 0.1
-            fields = self.gen_fields(scope, node_g, 1, True, (ns,) if ns else (), (), gshort, ghid)
+            aenv = r.choice([b"", b"EX"])
+            fields = self.gen_fields(scope, node_g, 1, True, (ns,) if ns else (), (aenv,) if aenv else (), gshort, ghid)
             attach.append({"kind": "group", "path": [], "short": gshort, "long": b"", "fields": fields,
-                           "ns": ns, "envns": r.choice([b"", b"EX"]), "hidden": ghid})
+                           "ns": ns, "envns": aenv, "hidden": ghid})
             if attach[-1]["envns"]:
                 for o in node_g["opts"]:
                     pass
@@ -524,7 +525,20 @@ class Gen:
         root["subopt"] = cfg["subopt"]
         # environment
         envs = []
-        for k in (b"VF_A", b"VF_B", b"VF_C", b"VF_LIST", b"SUB_VF_A", b"DB_VF_B", b"EX_VF_A"):
+        keys = set([b"VF_A", b"VF_B", b"VF_C", b"VF_LIST", b"SUB_VF_A", b"DB_VF_B", b"EX_VF_A"])
+        ed = cfg["envdelim"]
+        def collect(nd):
+            for o in nd["opts"]:
+                if o.get("env"):
+                    parts = [n for n in o.get("envns", ()) if n]
+                    keys.add(ed.join(parts + [o["env"]]))
+                    if len(parts) > 1:
+                        keys.add(ed.join(list(reversed(parts)) + [o["env"]]))      # near miss: namespaces in the wrong order
+                    if parts:
+                        keys.add(o["env"])                                          # near miss: un-namespaced key
+            for s2 in nd["subs"]: collect(s2)
+        collect(root)
+        for k in sorted(keys):
             if self.chance("p_env_set") and r.random() < 0.5:
                 envs.append((k, r.choice([b"", b"7", b"a,b", b"x;y", b"k:1,j:2", b"true", b"1h", b"1.5", b"bad value", b"3"])))
         cfg["env"] = envs
